@@ -14,4 +14,9 @@ if rc != 0:
     print(out[-3000:])
     sys.exit("PrimSelfTest failed")
 print("PrimSelfTest ok (%.1fs)" % dt)
+rc, out, dt = verif.tlc("AesModesTest", timeout=600)
+if rc != 0:
+    print(out[-3000:])
+    sys.exit("AesModesTest failed")
+print("AesModesTest ok (%.1fs)" % dt)
 PY
